@@ -59,6 +59,13 @@ class ContextService(ServiceWithOperations):
         response = data_model.msg_types.SetContextStateResponse()
         return self._handle_operation_request(request_data, set_context_state, response)
 
+    def _get_mds_handle(self, descriptor_handle: str) -> str | None:
+        """Return the handle of the mds that contains the descriptor."""
+        descr = self._mdib.descriptions.handle.get_one(descriptor_handle, allow_none=True)
+        while descr is not None and descr.parent_handle is not None:
+            descr = self._mdib.descriptions.handle.get_one(descr.parent_handle, allow_none=True)
+        return None if descr is None else descr.Handle
+
     def _on_get_context_states(self, request_data):
         data_model = self._sdc_definitions.data_model
         pm_names = data_model.pm_names
@@ -90,7 +97,8 @@ class ContextService(ServiceWithOperations):
                         descr = self._mdib.descriptions.handle.get_one(handle, allow_none=True)
                         if descr:
                             if pm_names.MdsDescriptor == descr.NODETYPE:
-                                tmp = list(self._mdib.context_states.objects)
+                                tmp = [st for st in self._mdib.context_states.objects
+                                       if self._get_mds_handle(st.DescriptorHandle) == handle]
                     if tmp:
                         for state in tmp:
                             context_state_containers_lookup[state.Handle] = state
